@@ -1098,10 +1098,21 @@ func (w *vc20World) round(out *vOut, pools map[int]execpool.BacklogPool) bool {
 		lvTxids = append(lvTxids, id)
 	}
 
-	// ---- generate on L1
+	// ---- generate on L1.  A third of the rounds assemble a FULL block the way the transaction
+	// pool does: the evaluator gets a lowered node-local size cap, groups are offered until one
+	// does not fit (ErrNoSpace) and GenerateBlock follows immediately (stopFull); sometimes the
+	// remaining, smaller groups are still offered after a group did not fit.
 	tGen := time.Now()
-	ev, err := w.l1.StartEvaluator(hdr, 0, 0, nil)
+	capBytes, stopFull := 0, false
+	if r.Intn(3) == 0 {
+		capBytes = 300 + r.Intn(2400)
+		stopFull = r.Intn(3) != 0
+		w.count("rounds_with_size_cap")
+	}
+	ev, err := w.l1.StartEvaluator(hdr, 0, capBytes, nil)
 	require.NoError(t, err)
+	offered := len(pool)
+	noSpace := map[int]bool{}
 	codes := []interface{}{}
 	accepted := make([]bool, len(pool))
 	nacc, nrej := 0, 0
@@ -1110,13 +1121,28 @@ func (w *vc20World) round(out *vOut, pools map[int]execpool.BacklogPool) bool {
 		for i, x := range g.txs {
 			stxs[i] = x.stx
 		}
-		gerr := ev.TestTransactionGroup(stxs)
-		if gerr == nil {
-			gerr = ev.TransactionGroup(transactions.WrapSignedTxnsWithAD(stxs)...)
+		// the pool's Test() runs TestTransactionGroup on ingestion; the pending block evaluator is fed
+		// through TransactionGroup alone (addToPendingBlockEvaluatorOnce), whose verdict counts
+		terr := ev.TestTransactionGroup(stxs)
+		gerr := ev.TransactionGroup(transactions.WrapSignedTxnsWithAD(stxs)...)
+		if terr != nil && gerr == nil {
+			t.Errorf("round %d: TestTransactionGroup rejects (%v) what TransactionGroup accepts", rnd, terr)
 		}
 		c := vc20ErrClass(gerr)
 		codes = append(codes, c)
 		accepted[gi] = gerr == nil
+		if errors.Is(gerr, ledgercore.ErrNoSpace) {
+			noSpace[gi] = true
+			w.count("groups_no_space")
+			if stopFull {
+				offered = gi + 1
+				w.count("rej_" + g.kind)
+				w.count("errclass_12")
+				nrej++
+				w.count("blocks_generated_right_after_no_space")
+				break
+			}
+		}
 		if gerr == nil {
 			nacc++
 			w.count("acc_" + g.kind)
@@ -1142,7 +1168,8 @@ func (w *vc20World) round(out *vOut, pools map[int]execpool.BacklogPool) bool {
 	ub, err := ev.GenerateBlock(parts)
 	genOK := err == nil
 	if !genOK {
-		out.Case(vSym("c20"), 0, vL(), vL(), 0, 0, vL(), vL(), 0, 0, vL(vSym("codes")), vL(vSym("gen"), 0, err.Error()))
+		out.Case(vSym("c20"), 0, vL(), vL(), uint64(rnd), 0, vL(), vL(), 0, 0, capBytes, vc20B(stopFull), vL(vSym("codes")), vL(vSym("gen"), 0),
+			vL(vSym("fin")), vL(vSym("val"), 0, vL()), vL(vSym("digests")), vL(vSym("errs")), vL(vSym("red")), vL(vSym("mut")), vL(vSym("info"), nacc, nrej), vL(vSym("pschk")))
 		t.Logf("GenerateBlock failed: %v", err)
 		w.count("generate_failed")
 		return false
@@ -1161,7 +1188,16 @@ func (w *vc20World) round(out *vOut, pools map[int]execpool.BacklogPool) bool {
 		lenOf[stx.ID()] = s.GetEncodedLength()
 	}
 	poolT := []interface{}{}
-	for _, g := range pool {
+	for gi, g := range pool {
+		if gi < offered && noSpace[gi] {
+			// the exact encoded length of a transaction that is not in the block is known only for an
+			// empty ApplyData: a closing member of a group that did not fit is outside the modelled subset
+			for _, x := range g.txs {
+				if !x.stx.Txn.CloseRemainderTo.IsZero() {
+					modelled = false
+				}
+			}
+		}
 		wf, gid, feeok := w.staticFlags(g, spec)
 		gt := []interface{}{vSym("g"), vc20B(wf), vc20B(gid), vc20B(feeok)}
 		for _, x := range g.txs {
@@ -1180,8 +1216,14 @@ func (w *vc20World) round(out *vOut, pools map[int]execpool.BacklogPool) bool {
 			if w.proto.SupportGenesisHash && tx.GenesisHash != w.l1.GenesisHash() && !tx.GenesisHash.IsZero() {
 				genok = false // the generator's header only carries the hash after StartEvaluator
 			}
+			ln, inBlock := lenOf[x.stx.ID()]
+			if !inBlock {
+				if stib, eerr := blk.BlockHeader.EncodeSignedTxn(x.stx, transactions.ApplyData{}); eerr == nil {
+					ln = stib.GetEncodedLength()
+				}
+			}
 			gt = append(gt, vL(vSym("tx"), x.id, w.idx[tx.Sender], w.idx[tx.Receiver], tx.Amount.Raw, cl, tx.Fee.Raw,
-				uint64(tx.FirstValid), uint64(tx.LastValid), vc20B(genok), lenOf[x.stx.ID()]))
+				uint64(tx.FirstValid), uint64(tx.LastValid), vc20B(genok), ln))
 		}
 		poolT = append(poolT, gt)
 	}
@@ -1214,6 +1256,19 @@ func (w *vc20World) round(out *vOut, pools map[int]execpool.BacklogPool) bool {
 			gt = append(gt, vL(w.txid[s.ID()], s.ClosingAmount.Raw, other))
 		}
 		paysetT = append(paysetT, gt)
+	}
+	psBytes, feeSum := 0, uint64(0)
+	for _, sib := range ublk.Payset {
+		psBytes += sib.GetEncodedLength()
+		if sib.Txn.Sender != hdr.FeeSink {
+			feeSum += sib.Txn.Fee.Raw
+		}
+	}
+	pschk := vL(vSym("pschk"), vc20B(w.proto.LoadTracking), w.proto.MaxTxnBytesPerBlock, psBytes, uint64(ublk.Load),
+		vc20B(w.proto.TxnCounter), prevHdr.TxnCounter, len(ublk.Payset), ublk.TxnCounter,
+		vc20B(w.proto.Payouts.Enabled), feeSum, ublk.FeesCollected.Raw)
+	if capBytes > 0 && psBytes > capBytes {
+		t.Fatalf("block of %d bytes exceeds the local cap %d", psBytes, capBytes)
 	}
 	gRows, gPlain := w.deltaRows(&gdelta)
 	if !gPlain {
@@ -1373,6 +1428,7 @@ func (w *vc20World) round(out *vOut, pools map[int]execpool.BacklogPool) bool {
 		paramsT, lvT, poolT = vL(), vL(), []interface{}{}
 	}
 	out.Case(vSym("c20"), vc20B(modelled), paramsT, lvT, uint64(rnd), hdr.Bonus.Raw, poolT, partIdx, proposerIdx, vc20B(eligible),
+		capBytes, vc20B(stopFull),
 		append([]interface{}{vSym("codes")}, codes...),
 		vL(vSym("gen"), 1, vL(gh, rsTok, vc20B(rootOK), ublk.TxnCounter, ublk.FeesCollected.Raw, ublk.ProposerPayout().Raw, uint64(ublk.Load)), paysetT, gRows),
 		vL(vSym("fin"), w.idx[blk.Proposer()], blk.ProposerPayout().Raw),
@@ -1381,7 +1437,7 @@ func (w *vc20World) round(out *vOut, pools map[int]execpool.BacklogPool) bool {
 		append([]interface{}{vSym("errs")}, errs...),
 		append([]interface{}{vSym("red")}, red...),
 		append([]interface{}{vSym("mut")}, mutT...),
-		vL(vSym("info"), nacc, nrej))
+		vL(vSym("info"), nacc, nrej), pschk)
 	if modelled {
 		w.count("cases_modelled")
 	} else {
